@@ -23,7 +23,11 @@ ASCII_LETTERS = 'abcdefghijklmnopqrstuvwxyzABCDEFGHIJKLMNOPQRSTUVWXYZ'
 WORDS = ['the', 'quick', 'brown', 'fox', 'jumps', 'over', 'lazy', 'dog', 'Hello', 'world',
          'caption', 'Zoë', 'naïve', 'café', 'Straße', 'ночь', '東京', '한국', 'Ωmega', 'x2', '42',
          'I', 'a', 'rock&roll', "don't", 'e.g.', '100%', '#1', '@home', '(aside)', '[music]',
-         '♪', '—', '…', '¿qué?', '1+1=2', 'A/B', 'C:\\dir', '$5.00', 'µs']
+         '♪', '—', '…', '¿qué?', '1+1=2', 'A/B', 'C:\\dir', '$5.00', 'µs',
+         # spaces that are not ASCII blanks inside a word: no-break, narrow no-break, ideographic, em space
+         'n\u00a0b', '10\u202f000', '\u5168\u3000\u89d2', 'em\u2003sp',
+         # format characters inside a word: zero width no-break space (the BOM code point), soft hyphen, ZWJ
+         'zero\ufeffwidth', 'soft\u00adhyphen', 'zw\u200dj']
 
 # format metacharacters and markup-/entity-looking strings (property C03's adversarial emphasis)
 META = ['&', '<', '>', '"', "'", '-->', '->', '--', '&amp;', '&lt;', '&gt;', '&#65;', '&#x41;',
